@@ -394,9 +394,9 @@ func (t FTy) Coq() string {
 		if t.ObjR != nil {
 			r = fmt.Sprintf("(Some (OBR %s %s))", optN(t.ObjR.Min), optN(t.ObjR.Max))
 		}
-		return fmt.Sprintf("(TObject %s %s)", vh.BoolTerm(t.Flatten), r)
+		return fmt.Sprintf("(TObject %s %s %s)", vh.BytesTerm(t.refName()), vh.BoolTerm(t.Flatten), r)
 	case TOneof:
-		return fmt.Sprintf("(TOneof %s %s)", vh.BoolTerm(t.OneofR), t.List.Coq())
+		return fmt.Sprintf("(TOneof %s %s %s)", vh.BytesTerm(t.refName()), vh.BoolTerm(t.OneofR), t.List.Coq())
 	}
 	panic("unknown type kind")
 }
